@@ -7,6 +7,26 @@ _A_NOTE = ('Trusted: CrossHair 0.0.110 proxy semantics and path pruning, z3 5.1.
            'before a VIOLATION is printed.')
 
 CLAIMS = {
+    'C20': dict(
+        engine='A-crosshair',
+        technique='bounded symbolic execution of the real code (CrossHair + z3); built-graph canonical forms before / after each transformation',
+        text=('For every member of a family combining positional-only parameters with defaults (set, unset, explicitly '
+              'equal to the default), *args, mutable default objects shared between two parameters (unset, the same '
+              'object set explicitly, an equal list, an equal list aliased by a sibling argument or inside a nested '
+              'child), a dataclass with a default_factory field, configured and unconfigured Partials inside lists / '
+              'dicts / tuples, one tuple of literals at three places, tagged values with and without value directly '
+              'and inside containers (also with values shared elsewhere), tags on unset and positional arguments, and '
+              'shared nodes (site variants solver-enumerated, unbounded symbolic int leaves), and each of '
+              'materialize_defaults (once and twice), with_defaults_trimmed (both flags), unintern_tuples_of_literals, '
+              'replace_unconfigured_partials_with_callables, clear_argument_history, materialize_tags (no tags / a tag '
+              'set / clear_field_tags): the input is not modified, the transformed configuration builds a canonically '
+              'identical object graph (values, types, aliasing; or both builds fail), the first two keep it == to the '
+              'original, materialize_defaults is idempotent and leaves every parameter that has a default value '
+              'explicitly set (by name or index), and a serializable configuration stays serializable. '
+              'auto_config.inline on four programs (as root, shared three times, nested) and '
+              'convert_dataclasses_to_configs on five nested / shared dataclass shapes build equal graphs. One listed '
+              'known finding (trimming a default shared between parameters).'),
+        note=_A_NOTE + ' A built functools.partial binding nothing (or only immutable defaults) is identified with its callable.'),
     'C15': dict(
         engine='A-crosshair',
         technique='bounded symbolic execution of the real code (CrossHair + z3) against an independent walker and a substituted re-construction',
